@@ -37,6 +37,29 @@ def writes_something(facts, f):
     return False
 
 
+def directly_compared(body):
+    """Fields F with `self.F == other.F` (the field values themselves, not their length or another derived quantity)."""
+    out = set()
+
+    def field_of(x, who):
+        while isinstance(x, dict) and x.get("k") in ("AddrOf", "Deref", "Unary"):
+            x = x.get("a") or x.get("e")
+        if isinstance(x, dict) and x.get("k") == "MethodCall" and x["m"] in ("as_deref", "as_str", "as_ref", "borrow", "as_slice") and not x.get("args"):
+            return field_of(x.get("recv"), who)
+        if isinstance(x, dict) and x.get("k") == "Field" and x["a"].get("k") == "Path" and (x["a"].get("name") == "self") == (who == "self"):
+            return x["name"]
+        return None
+    for m in walk(body):
+        if m.get("k") == "Binary" and m.get("op") == "==":
+            a, b = field_of(m["a"], "self"), field_of(m["b"], "other")
+            if a and a == b:
+                out.add(a)
+            a, b = field_of(m["b"], "self"), field_of(m["a"], "other")
+            if a and a == b:
+                out.add(a)
+    return out
+
+
 def self_fields(body):
     out = set()
     for m in walk(body):
@@ -691,7 +714,7 @@ def run(facts, tier):
         if d is None or eq is None or eq.get("derived") or "body" not in eq:
             continue
         printed = self_fields(d["body"])
-        compared = self_fields(eq["body"])
+        compared = directly_compared(eq["body"])
         for fld in sorted(printed):
             st3["instances"] += 1
             ok = fld in compared or (ty, fld) in EQ_REASONS
